@@ -37,7 +37,7 @@ func expandC10(t *testing.T, seed uint64, tier string) []*core.Plan {
 	n := r.Range(1, 12)
 	tag := 0
 	for i := 0; i < n; i++ {
-		switch r.Weighted([]int{10, 2, 4, 2, 1, 2, 2}) {
+		switch r.Weighted([]int{10, 2, 4, 2, 1, 2, 2, 3, 2}) {
 		case 0:
 			tag++
 			p.Items = append(p.Items, core.Item{K: "bpub", A: r.Pick(0, 1, 2, 2, 2), D: tag})
@@ -53,6 +53,14 @@ func expandC10(t *testing.T, seed uint64, tier string) []*core.Plan {
 			p.Items = append(p.Items, core.Item{K: "reconnect"})
 		case 6:
 			p.Items = append(p.Items, core.Item{K: "settle"})
+		case 7:
+			// the application's own traffic shares the session (and the packet id
+			// space of the other direction) with the inbound handshakes
+			p.Items = append(p.Items, core.Item{K: "app", A: r.Intn(4)})
+		case 8:
+			// the next callback takes its time; meanwhile the client is closed (0),
+			// the connection is lost (1), or nothing happens (2)
+			p.Items = append(p.Items, core.Item{K: "hold", A: r.Intn(3)})
 		}
 	}
 	out := []*core.Plan{p}
@@ -113,6 +121,11 @@ type c10Run struct {
 	early  bool
 	seen   map[*Conn]int
 	closer chan struct{}
+	// held callbacks
+	holdNext bool
+	holdAct  int
+	held     chan struct{}
+	appN     int
 }
 
 func (r *c10Run) open(id packet.ID) *inFlow {
@@ -141,6 +154,12 @@ func (r *c10Run) connect() {
 		fmt.Sscanf(string(msg.Payload), "#%d#", &rec.tag)
 		if r.cbN == r.cberr {
 			rec.ret = errRejected
+		}
+		if r.holdNext && rec.ret == nil {
+			r.holdNext = false
+			r.held = make(chan struct{})
+			w.ev(&Ev{K: EvNote, C: dial, S: fmt.Sprintf("callback for message #%d takes its time", rec.tag)})
+			<-r.held
 		}
 		rec.seq = w.ev(&Ev{K: EvCallback, C: dial, S: fmt.Sprintf("message #%d q%d -> %v", rec.tag, rec.qos, rec.ret)}).Seq
 		r.cbs = append(r.cbs, rec)
@@ -200,6 +219,32 @@ func (r *c10Run) absorb(prompt bool) {
 				if f := r.open(q.ID); f != nil && f.qos == 2 && f.gotRec {
 					f.done = true
 				}
+			case *packet.Subscribe:
+				a := packet.NewSuback()
+				a.ID = q.ID
+				for _, sub := range q.Subscriptions {
+					a.ReturnCodes = append(a.ReturnCodes, sub.QOS)
+				}
+				c.BSend(a)
+			case *packet.Unsubscribe:
+				a := packet.NewUnsuback()
+				a.ID = q.ID
+				c.BSend(a)
+			case *packet.Publish:
+				switch q.Message.QOS {
+				case 1:
+					a := packet.NewPuback()
+					a.ID = q.ID
+					c.BSend(a)
+				case 2:
+					a := packet.NewPubrec()
+					a.ID = q.ID
+					c.BSend(a)
+				}
+			case *packet.Pubrel:
+				a := packet.NewPubcomp()
+				a.ID = q.ID
+				c.BSend(a)
 			}
 		}
 		r.seen[c] = len(c.BRecv)
@@ -218,6 +263,12 @@ func (r *c10Run) resume() {
 	done := make(chan struct{})
 	go func() { _ = old.Close(); close(done) }()
 	r.w.Settle()
+	for r.held != nil {
+		// a callback that takes its time returns now
+		close(r.held)
+		r.held = nil
+		r.w.Settle()
+	}
 	select {
 	case <-done:
 	default:
@@ -265,6 +316,35 @@ func runC10(t *testing.T, p *core.Plan) *core.Result {
 			r.absorb(prompt)
 			w.Settle()
 			r.absorb(prompt)
+			for r.held != nil {
+				// the processor sits in the application's callback
+				res.Count("callbacks_held", 1)
+				var closed chan struct{}
+				switch r.holdAct {
+				case 0:
+					closed = make(chan struct{})
+					cl := r.cur
+					w.ev(&Ev{K: EvNote, C: w.dials, S: "harness-takes-over"})
+					go func() { _ = cl.Close(); close(closed) }()
+				case 1:
+					if bc := r.bc(); bc != nil && !bc.BEOF {
+						bc.Drop()
+					}
+				}
+				w.Settle()
+				close(r.held)
+				r.held = nil
+				w.Settle()
+				if closed != nil {
+					select {
+					case <-closed:
+					default:
+						res.Violate("C10", "C10.close-blocks", "after-callback", "Close, called while the application callback was running, did not return after the callback had returned")
+					}
+					r.dead = true
+				}
+				r.absorb(prompt)
+			}
 			if (r.dead || (r.bc() != nil && r.bc().BEOF)) && w.dials < 11 {
 				r.resume()
 				w.Settle()
@@ -333,6 +413,23 @@ func runC10(t *testing.T, p *core.Plan) *core.Result {
 				if w.dials < 11 {
 					r.resume()
 				}
+			case "hold":
+				r.holdNext, r.holdAct = true, it.A
+				continue
+			case "app":
+				r.appN++
+				cl, n, kind := r.cur, r.appN, it.A
+				go func() {
+					switch kind {
+					case 0:
+						_, _ = cl.Subscribe(fmt.Sprintf("app/%d", n), 1)
+					case 1:
+						_, _ = cl.Unsubscribe(fmt.Sprintf("app/%d", n))
+					default:
+						_, _ = cl.Publish("out/t", []byte(fmt.Sprintf("out%d", n)), packet.QOS(kind-1), false)
+					}
+				}()
+				res.Count("app_commands", 1)
 			}
 			step()
 		}
